@@ -1,6 +1,6 @@
 SPECIFICATION Spec
 CONSTANTS
-  Alphabet <- MC_AlphaQuick
+  Alphabet <- MC_AlphaLen4
   MaxLen = 4
 INVARIANT TypeOK
 INVARIANT LogExConsistent
